@@ -193,7 +193,8 @@ package crlrepository
 //@   ensures chains_untouched: old(chains != nil && chainsOK(chains)) ==> chainsOK(chains)
 
 //@ func Repository.AddCRL
-//@   props C10 C13 C16
+//@   props C08 C10 C13 C15 C16
+//@   ensures[C08,C15] signer_repair_is_attempted: r1 == nil && called(Repository.getOrAddEntry#1) && !called(Repository.loadActively#1) && res(Repository.getOrAddEntry#1, 0) != nil && res(Repository.getOrAddEntry#1, 0).LastUpdateSignatureVerifyFailed ==> called(Repository.tryUpdateSignatureCertFromChain#1)
 //@   requires repoOK(R) && norwlocks() && crlLocations != nil && chains != nil && chainsOK(chains)
 //@   assigns L.held, crlrepository.Entry.CRLStore, crlrepository.Entry.Loaded, crlrepository.Entry.LastUpdateSignatureVerifyFailed, crlrepository.Entry.LastUpdateSignature, crlrepository.Entry.Chains, H.crlrepository.Repository.crlRepository, M.map[string]*crlrepository.Entry, crlstore.MapStore.Map, M.map[string][]uint8, crlstore.LevelDbStore.Db, H.crlloader.MultiSchemesCRLLoader, H.crlloader.URLLoader, H.crlloader.FileLoader, X.ldbhas, X.fs, X.net, X.retry, X.stream, X.spos, X.hacc, X.hkind, E.uint8, E.any, E.string, fresh:E.*core.CertificateChainEntry, fresh:E.core.CertificateChain, fresh:E.core.CertificateChainEntry
 //@   ensures norwlocks()
